@@ -80,6 +80,36 @@ def valid_case(t, hd, version, security, old, new):
     t.outcome("valid-ok-" + tag)
 
 
+def edited_headers(t, hd):
+    """a header object - made by make_header or returned by the parser - whose fields are then assigned other valid
+    values renders those values: its text parses back to the edited fields"""
+    import io as _io
+
+    for v, v2 in ((102, 160), (103, 102), (203, 220), (220, 200)):
+        for how in ("made", "parsed"):
+            t.count("evaluations")
+            case = {"kind": "edited", "version": v, "to": v2, "how": how}
+            sig = f"C12|{'v1' if v < 200 else 'v2'}|edited-header"
+            try:
+                h = hd.make_header(v, security="NONE", oldfileuid="NONE", newfileuid="first-uid")
+                if how == "parsed":
+                    h, _ = hd.parse_header(_io.BytesIO((str(h) + BODY).encode("ascii")))
+                h.version = v2
+                h.security = "TYPE1"
+                h.newfileuid = "second_uid-2"
+                h.oldfileuid = "first-uid"
+                h2, body = hd.parse_header(_io.BytesIO((str(h) + BODY).encode("ascii")))
+            except Exception as e:
+                t.fail(f"{sig}|raises-{type(e).__name__}", case, f"{type(e).__name__}: {e}")
+                continue
+            got = {k: getattr(h2, k) for k in ("version", "security", "oldfileuid", "newfileuid")}
+            exp = {"version": v2, "security": "TYPE1", "oldfileuid": "first-uid", "newfileuid": "second_uid-2"}
+            if got != exp:
+                t.fail(f"{sig}|text-does-not-say-what-the-header-holds", case, f"{got} expected {exp}")
+            else:
+                t.outcome("edited-ok")
+
+
 def valid_work(chunk):
     hd = lib()
     t = Tally()
@@ -284,6 +314,7 @@ def run(ctx):
                     jobs.append((v, sec, None, ch))
     tally = ctx.pmap(valid_work, jobs)
     faults(tally)
+    edited_headers(tally, hd)
     if "refused" not in tally.outcomes or "valid-ok-v1" not in tally.outcomes or "valid-ok-v2" not in tally.outcomes:
         if not tally.fails:
             vacuous(tally, "vacuous: an outcome class was never observed")
@@ -295,7 +326,7 @@ def run(ctx):
         "evaluations": tally.counts.get("evaluations", 0),
         "distinct_nontrivial": nfaults,
         "rule": f"valid: {len(versions)} versions (all supported + every 100..199) x security (None,NONE,TYPE1) x UIDs (default, 5 of length 36 jointly covering "
-        "[A-Za-z0-9_-], every single character as a 1-character UID for supported versions) = " + str(len(jobs)) + " round trips; faults (non-trivial cases): "
+        "[A-Za-z0-9_-], every single character as a 1-character UID for supported versions) = " + str(len(jobs)) + " round trips; 8 headers (made / parsed) edited by assignment and rendered again; faults (non-trivial cases): "
         "every foreign token (tokens of all other fields + near misses) per enumerated field, OFXHEADER of the other kind, VERSION non-numeric/4-digit/unsupported, "
         "37-character UIDs, every mandatory field removed, every adjacent pair transposed, one stray non-ASCII byte / character at 3 places of each field value "
         "(v1 fields before NEWFILEUID, v2 numeric and enumerated attributes; 4 resp. 3 byte patterns) - through header text (parse_header and class parse) and constructor "
